@@ -30,6 +30,7 @@ type Prog struct {
 	repoDir   string
 	specDir   string
 	axiomsForLang map[string][]string // language -> SMT axioms contributed by proved lemmas
+	lemmaAxioms map[string]lemmaAx
 }
 
 const modPath = "github.com/google/safehtml"
@@ -365,16 +366,71 @@ func (fx *FuncCtx) run() {
 		}
 		ob := fx.oblige("cover", "cover.some-return", fx.decl.Pos(), "true", sNot(sOr(pcs...)), "some return is reachable under the precondition (vacuity guard)")
 		ob.Expect = VSat
+		ob.Canary = true
 	}
 	_ = p
 }
 
 // header assembles the SMT prelude for the function's script.
 func (fx *FuncCtx) header() string {
-	return fx.prog.header(fx.useSeq, fx.specUsed, fx.langsUsed)
+	var lemmas []string
+	if fx.con != nil {
+		lemmas = strings.Fields(fx.con.Options["uses"])
+	}
+	return fx.prog.header(fx.useSeq, fx.specUsed, fx.langsUsed, lemmas)
 }
 
-func (p *Prog) header(useSeq bool, specUsed, langsUsed map[string]bool) string {
+// langDefAxiom gives the definitional fact of a named language when it is a boolean combination
+// of named languages or a literal.
+func (p *Prog) langDefAxiom(name string) (string, []string) {
+	ld, ok := p.spec.Langs[name]
+	if !ok || ld.Code || ld.Expr == nil {
+		return "", nil
+	}
+	call, ok := ld.Expr.(*ast.CallExpr)
+	if !ok {
+		return "", nil
+	}
+	fn := call.Fun.(*ast.Ident).Name
+	if fn == "lit" {
+		s, err := litString(call.Args[0])
+		if err != nil {
+			return "", nil
+		}
+		return fmt.Sprintf("(assert (forall ((s BSeq)) (! (= (inlang_%s s) (= s %s)) :pattern ((inlang_%s s)))))", name, seqLit(s), name), nil
+	}
+	var ns []string
+	for _, a := range call.Args {
+		id, ok := a.(*ast.Ident)
+		if !ok {
+			return "", nil
+		}
+		ns = append(ns, id.Name)
+	}
+	var body string
+	switch fn {
+	case "and", "or":
+		var ts []string
+		for _, n := range ns {
+			ts = append(ts, fmt.Sprintf("(inlang_%s s)", n))
+		}
+		body = "(" + fn + " " + strings.Join(ts, " ") + ")"
+	case "not":
+		body = fmt.Sprintf("(not (inlang_%s s))", ns[0])
+	case "minus":
+		body = fmt.Sprintf("(and (inlang_%s s) (not (inlang_%s s)))", ns[0], ns[1])
+	default:
+		return "", nil
+	}
+	var pats []string
+	pats = append(pats, fmt.Sprintf(":pattern ((inlang_%s s))", name))
+	for _, n := range ns {
+		pats = append(pats, fmt.Sprintf(":pattern ((inlang_%s s))", n))
+	}
+	return fmt.Sprintf("(assert (forall ((s BSeq)) (! (= (inlang_%s s) %s) %s)))", name, body, strings.Join(pats, " ")), ns
+}
+
+func (p *Prog) header(useSeq bool, specUsed, langsUsed map[string]bool, lemmas []string) string {
 	var b strings.Builder
 	b.WriteString("(set-option :produce-models true)\n")
 	// closure of spec functions
@@ -452,6 +508,44 @@ func (p *Prog) header(useSeq bool, specUsed, langsUsed map[string]bool) string {
 			axioms = append(axioms, ax{a.Name, t})
 		}
 	}
+	var lemmaTexts []string
+	for _, ln := range lemmas {
+		la, ok := p.lemmaAxioms[ln]
+		if !ok {
+			panic(unsupported{"contract uses lemma " + ln + ", which does not exist or has no axiom form"})
+		}
+		lemmaTexts = append(lemmaTexts, la.text)
+		for _, l := range la.langs {
+			langs[l] = true
+		}
+	}
+	var defTexts []string
+	doneDef := map[string]bool{}
+	for changed := true; changed; {
+		changed = false
+		var cur []string
+		for l := range langs {
+			cur = append(cur, l)
+		}
+		sort.Strings(cur)
+		for _, l := range cur {
+			if doneDef[l] {
+				continue
+			}
+			doneDef[l] = true
+			ax, deps := p.langDefAxiom(l)
+			if ax == "" {
+				continue
+			}
+			defTexts = append(defTexts, ax)
+			for _, d := range deps {
+				if !langs[d] {
+					langs[d] = true
+					changed = true
+				}
+			}
+		}
+	}
 	if len(langs) > 0 {
 		useSeq = true
 	}
@@ -481,11 +575,13 @@ func (p *Prog) header(useSeq bool, specUsed, langsUsed map[string]bool) string {
 	for _, a := range axioms {
 		fmt.Fprintf(&b, "(assert (! %s :named ax_%s))\n", a.text, sanitizeIdent(a.name))
 	}
-	for _, l := range ln {
-		for _, a := range p.axiomsForLang[l] {
-			b.WriteString(a)
-			b.WriteString("\n")
-		}
+	for _, t := range defTexts {
+		b.WriteString(t)
+		b.WriteString("\n")
+	}
+	for _, t := range lemmaTexts {
+		b.WriteString(t)
+		b.WriteString("\n")
 	}
 	return b.String()
 }
